@@ -22,7 +22,7 @@ tvars == <<vars, tid, l, status>>
 ASSUME \A i \in 1..Len(Logs) : TLCSet(i, <<0, "ok">>)
 
 Steps == Logs[tid].steps
-InputOf(r)  == [start |-> r.start, sp |-> r.sp, ml |-> r.ml, ready |-> r.ready]
+InputOf(r)  == [start |-> r.start, sp |-> r.sp, ml |-> r.ml, ready |-> r.ready, rst |-> r.rst]
 OutputOf(r) == [valid |-> r.valid, lanes |-> r.lanes, first |-> r.first, last |-> r.last,
                 done |-> r.done, olen |-> r.olen]
 
@@ -31,6 +31,7 @@ Failing(i, o) ==
     IF ~E_start(i) THEN "env_start_while_busy"
     ELSE IF ~E_held(i) THEN "env_inputs_not_held"
     ELSE IF ~E_req(i) THEN "env_illegal_request"
+    ELSE IF ~E_clean(i) THEN "env_known_finding_trigger_in_clean_trace"
     ELSE IF ~O_valid(o) THEN "valid"
     ELSE IF ~O_withdrawn(o) THEN "valid_withdrawn"
     ELSE IF ~O_latency(o) THEN "latency"
